@@ -78,7 +78,7 @@ def cmAccess (b : Bytes) : Option (List View) := do
 def ifAccess (b : Bytes) : Option (List View) := do
   let _ ← rd b 0 36
   let c ← rd b 36 2
-  let cp := (c + c % 2) % 65536        -- `++count` on a uint16_t
+  let cp := c + c % 2                  -- padded to even (computed in size_t since the repair of the 16-bit wrap)
   let vpos := 38 + cp
   let vl ← rd b vpos 2
   pure [dataView "streamIds" 38 c, dataView "vendorData" (vpos + 2) vl]
